@@ -195,7 +195,7 @@ impl Property for C11 {
     const ID: &'static str = "C11";
 
     fn rule() -> String {
-        "proptest-generated containers with 1-3 content packs in separate files (main pack through TwoFiles/NoConcat, extra packs always, OneFile with >=1 extra), contents distributed over all packs, directory entries pointing at real contents; for EVERY non-empty subset of the separate packs and every kind of unavailability {file deleted, replaced by a directory, replaced by a different valid container holding another uuid, replaced by a different valid bare content pack} (plus one mixed assignment). Oracle: Container::new succeeds; every entry equals the model; a content of an available pack reads to its bytes; a content of an unavailable pack answers MISSING whose pack id, uuid and location equal the manifest's (independent decoder) - not an error, a panic or bytes; get_pack(id > max) is None; check() is Ok(true). Non-trivial = a scenario with at least one pack unavailable and one available, both holding contents that are read; distinct by (packaging, pack count, subset, kind). Fixed cases 'alternative packs': two content packs declared under ONE id (spec/manifest.rst: the one declared first has priority) next to two ordinary packs, 4 declaration orders, every subset of the four pack files removed: while the first-declared pack is available its bytes are served; without it the answer is MISSING describing it (or the alternative's bytes); ordinary packs read or are MISSING as usual; check() is Ok(true). Every scenario is asked again on a fresh container last pack first; then every deleted pack file is put back at its recorded location and the container that reported it missing must read its contents. A sixth kind of unavailability: the twin (the same container built a second time: a valid pack of the same size at the same place under another uuid). Packs replaced by a foreign or twin file are put back like the deleted ones.".into()
+        "proptest-generated containers with 1-3 content packs in separate files (main pack through TwoFiles/NoConcat, extra packs always, OneFile with >=1 extra), contents distributed over all packs, directory entries pointing at real contents; for EVERY non-empty subset of the separate packs and every kind of unavailability {file deleted, replaced by a directory, replaced by a different valid container holding another uuid, replaced by a different valid bare content pack} (plus one mixed assignment). Oracle: Container::new succeeds; every entry equals the model; a content of an available pack reads to its bytes; a content of an unavailable pack answers MISSING whose pack id, uuid and location equal the manifest's (independent decoder) - not an error, a panic or bytes; get_pack(id > max) is None; check() is Ok(true). Non-trivial = a scenario with at least one pack unavailable and one available, both holding contents that are read; distinct by (packaging, pack count, subset, kind). Fixed cases 'alternative packs': two content packs declared under ONE id (spec/manifest.rst: the one declared first has priority) next to two ordinary packs, 4 declaration orders, every subset of the four pack files removed: while the first-declared pack is available its bytes are served; without it the answer is MISSING describing it (or the alternative's bytes); ordinary packs read or are MISSING as usual; check() is Ok(true). Every scenario is asked again on a fresh container last pack first; then every deleted pack file is put back at its recorded location and the container that reported it missing must read its contents. A sixth kind of unavailability: the twin (the same container built a second time: a valid pack of the same size at the same place under another uuid). Packs replaced by a foreign or twin file are put back like the deleted ones. Every third scenario is also read by four threads released together on a freshly opened container (unavailable packs first for two of them, last for the others). One more scenario per case: the location of a separate pack respelled as a file: URL: MISSING under that location, or served - and then covered by the check.".into()
     }
 
     fn cases(tier: Tier) -> u32 {
@@ -421,6 +421,44 @@ impl Property for C11 {
                 }
                 info.class("asked-last-pack-first");
             }
+            // four threads, released together, ask a freshly opened container for every content (the
+            // first request for an unavailable pack and for an available one happen at the same time)
+            if si % 3 == 0 {
+                let cc = match jbk::reader::Container::new(d.join("a.jbk")) {
+                    Ok(c) => std::sync::Arc::new(c),
+                    Err(e) => fail!("container-unreadable", "scenario {si} {sc:?}: Container::new fails: {e}"),
+                };
+                let barrier = std::sync::Arc::new(std::sync::Barrier::new(4));
+                let jobs: std::sync::Arc<Vec<(jbk::ContentAddress, Vec<u8>, bool)>> = std::sync::Arc::new(built.model.contents.iter().map(|(a, b)| (*a, b.clone(), unavailable(a.pack_id.into_u16()))).collect());
+                let hs: Vec<_> = (0..4usize)
+                    .map(|t| {
+                        let cc = std::sync::Arc::clone(&cc);
+                        let barrier = std::sync::Arc::clone(&barrier);
+                        let jobs = std::sync::Arc::clone(&jobs);
+                        std::thread::spawn(move || -> Result<(), Failure> {
+                            barrier.wait();
+                            for k in 0..jobs.len() {
+                                // unavailable packs first for the even threads, last for the odd ones
+                                let (a, b, un) = &jobs[if t % 2 == 0 { jobs.len() - 1 - k } else { k }];
+                                match (read_content(&cc, *a), *un) {
+                                    (ContentRead::Missing { .. }, true) => {}
+                                    (ContentRead::Bytes(v), false) => ensure!(&v == b, "content-bytes", "concurrent readers: content {a:?} of an available pack differs"),
+                                    (other, true) => fail!("missing-not-reported", "concurrent readers (thread {t}): content {a:?} of an unavailable pack: {}", other.describe()),
+                                    (other, false) => fail!("available-content-unreadable", "concurrent readers (thread {t}): content {a:?} of an available pack: {}", other.describe()),
+                                }
+                            }
+                            Ok(())
+                        })
+                    })
+                    .collect();
+                for (t, h) in hs.into_iter().enumerate() {
+                    match h.join() {
+                        Ok(r) => r?,
+                        Err(_) => fail!("reader-panic", "scenario {si} {sc:?}: reader thread {t} of four concurrent readers panicked: {}", take_panic().unwrap_or_default()),
+                    }
+                }
+                info.class("concurrent-readers-with-a-missing-pack");
+            }
             // a pack that was reported missing becomes available while the container is open (the
             // file is put back at its recorded location): the same container now reads it
             {
@@ -490,6 +528,59 @@ impl Property for C11 {
             }
             if sc.iter().all(|u| u.is_some()) && case.packaging != Packaging::OneFile {
                 info.class("all-unavailable");
+            }
+        }
+        // one more scenario: the location of the first separate pack respelled as a `file:` URL (the
+        // format documentation names that scheme). A reader may not follow it - the pack is then
+        // MISSING under the location written - or follow it and serve the bytes; if it serves them,
+        // the pack is present and the container check has to cover it like any other.
+        {
+            let d = ctx.subdir("c11-run");
+            copy_dir(&base, &d);
+            let p = separate[0];
+            let loc = String::from_utf8(p.location.clone()).unwrap();
+            let url = format!("file:{loc}");
+            if url.len() <= 213 {
+                match jbk::tools::set_location(d.join("a.jbk"), uuid::Uuid::from_bytes(p.uuid), url.as_str().into()) {
+                    Ok(Some(_)) => {}
+                    other => fail!("harness-set-location", "set_location while preparing the file: scenario: {:?}", other.map(|o| o.is_some()).map_err(|e| e.to_string())),
+                }
+                let c = match jbk::reader::Container::new(d.join("a.jbk")) {
+                    Ok(c) => c,
+                    Err(e) => fail!("container-unreadable", "location respelled as {url:?}: Container::new fails: {e}"),
+                };
+                let mut served = false;
+                for (a, b) in built.model.contents.iter().filter(|(a, _)| a.pack_id.into_u16() == p.pack_id) {
+                    match read_content(&c, *a) {
+                        ContentRead::Missing { location, .. } => ensure!(location == url, "missing-wrong-info", "location respelled as {url:?}: MISSING carries location {location:?}"),
+                        ContentRead::Bytes(v) => {
+                            ensure!(&v == b, "content-bytes", "location respelled as {url:?}: content {a:?} differs");
+                            served = true;
+                        }
+                        other => fail!("missing-not-reported", "location respelled as {url:?}: content {a:?}: {}", other.describe()),
+                    }
+                    evals += 1;
+                }
+                drop(c);
+                info.class(if served { "file-url-location:followed" } else { "file-url-location:not-followed" });
+                if served {
+                    let path = d.join(&loc);
+                    let mut bytes = std::fs::read(&path).unwrap();
+                    if let Ok(fd2) = indep::decode_file(&bytes) {
+                        if let Some(pi) = fd2.find_uuid(&p.uuid) {
+                            let pk = &fd2.packs[pi];
+                            let pos = (pk.start + pk.header.check_pos / 2) as usize;
+                            bytes[pos] ^= 0x40;
+                            std::fs::write(&path, &bytes).unwrap();
+                            if let Ok(c2) = jbk::reader::Container::new(d.join("a.jbk")) {
+                                if let Ok(true) = c2.check() {
+                                    fail!("check-misses-damaged-present-pack", "location respelled as {url:?}: the pack is served through it, byte {pos} of it was altered and Container::check still answers Ok(true)");
+                                }
+                            }
+                            evals += 1;
+                        }
+                    }
+                }
             }
         }
         info.evals = evals.max(1);
